@@ -173,49 +173,27 @@ pub(super) fn execute_merge_create_from_rows<S: GraphSnapshot>(
         let dst_props = merge_eval_props_on_row(snapshot, &row, &dst_node.properties, params)?;
         let rel_props = merge_eval_props_on_row(snapshot, &row, &rel_pat.properties, params)?;
 
-        let mut src_candidates = if let Some(var) = &src_node.variable {
-            row.get_node(var).map(|iid| vec![iid]).unwrap_or_default()
-        } else {
-            Vec::new()
+        // Endpoints bound by the incoming row are fixed; unbound endpoints range over the
+        // matching nodes. Nothing is created before the whole pattern failed to match.
+        let src_bound = src_node
+            .variable
+            .as_ref()
+            .and_then(|var| row.get_node(var));
+        let dst_bound = dst_node
+            .variable
+            .as_ref()
+            .and_then(|var| row.get_node(var));
+        let src_candidates = match src_bound {
+            Some(iid) => vec![iid],
+            None => merge_find_node_candidates(snapshot, overlay, &src_node.labels, &src_props),
         };
-        let mut dst_candidates = if let Some(var) = &dst_node.variable {
-            row.get_node(var).map(|iid| vec![iid]).unwrap_or_default()
-        } else {
-            Vec::new()
+        let dst_candidates = match dst_bound {
+            Some(iid) => vec![iid],
+            None => merge_find_node_candidates(snapshot, overlay, &dst_node.labels, &dst_props),
         };
 
         let mut created_src = None;
         let mut created_dst = None;
-
-        if src_candidates.is_empty() {
-            src_candidates =
-                merge_find_node_candidates(snapshot, overlay, &src_node.labels, &src_props);
-        }
-        if src_candidates.is_empty() {
-            let iid = merge_create_node(txn, src_node, &src_props, &mut created_count)?;
-            overlay.nodes.push(MergeOverlayNode {
-                iid,
-                labels: src_node.labels.clone(),
-                props: src_props.clone(),
-            });
-            src_candidates.push(iid);
-            created_src = Some(iid);
-        }
-
-        if dst_candidates.is_empty() {
-            dst_candidates =
-                merge_find_node_candidates(snapshot, overlay, &dst_node.labels, &dst_props);
-        }
-        if dst_candidates.is_empty() {
-            let iid = merge_create_node(txn, dst_node, &dst_props, &mut created_count)?;
-            overlay.nodes.push(MergeOverlayNode {
-                iid,
-                labels: dst_node.labels.clone(),
-                props: dst_props.clone(),
-            });
-            dst_candidates.push(iid);
-            created_dst = Some(iid);
-        }
 
         let rel_type = txn.get_or_create_rel_type_id(&rel_type_name)?;
         let mut matched_rows = Vec::new();
@@ -296,12 +274,36 @@ pub(super) fn execute_merge_create_from_rows<S: GraphSnapshot>(
             continue;
         }
 
-        let src_iid = *src_candidates
-            .first()
-            .ok_or_else(|| Error::Other("missing source node for MERGE relationship".into()))?;
-        let dst_iid = *dst_candidates.first().ok_or_else(|| {
-            Error::Other("missing destination node for MERGE relationship".into())
-        })?;
+        // No match for the whole pattern: MERGE creates the whole pattern. Only endpoints
+        // bound by the incoming row are reused; every other node of the pattern is new.
+        let src_iid = match src_bound {
+            Some(iid) => iid,
+            None => {
+                let iid = merge_create_node(txn, src_node, &src_props, &mut created_count)?;
+                overlay.nodes.push(MergeOverlayNode {
+                    iid,
+                    labels: src_node.labels.clone(),
+                    props: src_props.clone(),
+                });
+                created_src = Some(iid);
+                iid
+            }
+        };
+        let same_variable = src_node.variable.is_some() && src_node.variable == dst_node.variable;
+        let dst_iid = match dst_bound {
+            Some(iid) => iid,
+            None if same_variable => src_iid,
+            None => {
+                let iid = merge_create_node(txn, dst_node, &dst_props, &mut created_count)?;
+                overlay.nodes.push(MergeOverlayNode {
+                    iid,
+                    labels: dst_node.labels.clone(),
+                    props: dst_props.clone(),
+                });
+                created_dst = Some(iid);
+                iid
+            }
+        };
 
         let (edge_src, edge_dst) = match rel_pat.direction {
             crate::ast::RelationshipDirection::LeftToRight
